@@ -66,6 +66,7 @@ func (t *TranslateArgs) UnmarshalJSON(raw []byte) error {
 		return err
 	}
 
+	*t = nil // decoding into used arguments replaces them
 	for _, v := range v {
 		*t = append(*t, v)
 	}
